@@ -43,12 +43,13 @@ def split_scripts(path):
     return res
 
 
-def gen_and_run(ctx, avh, avm, seed, tier, enable, nscripts, tag):
+def gen_and_run(ctx, avh, avm, seed, tier, enable, nscripts, tag, avh_oracle=None):
     """generates `nscripts` scripts in NSHARDS shards, runs implementation, model and oracle on each.
     returns dict with per-shard file names, S-line mismatches, oracle FAIL lines, stats.  Cached by the digests of both
     binaries (a deterministic function of them, the dump, the seed and the parameters)."""
     os.makedirs(TW, exist_ok=True)
-    key = hashlib.sha256(("%s|%s|%s|%s|%s|%d|%s" % (file_digest([avh, avm]), file_digest([os.path.join(DUMP, "spec_tables.txt")]),
+    avh_oracle = avh_oracle or avh
+    key = hashlib.sha256(("%s|%s|%s|%s|%s|%d|%s" % (file_digest([avh, avm, avh_oracle]), file_digest([os.path.join(DUMP, "spec_tables.txt")]),
                                                       seed, tier, enable, nscripts, tag)).encode()).hexdigest()[:24]
     cdir = os.path.join(TW, "cache-" + key)
     meta = os.path.join(cdir, "result.json")
@@ -88,7 +89,7 @@ def gen_and_run(ctx, avh, avm, seed, tier, enable, nscripts, tag):
         if len(a) != len(b):
             r["error"] = "model runner produced %d script results, implementation %d: %s" % (len(b), len(a), o2[-300:])
         r["mismatch"] = mism
-        rc3, o3, _ = lib.run([avh, "tree", "oracle", DUMP, sf], cwd=cdir, timeout=2400)
+        rc3, o3, _ = lib.run([avh_oracle, "tree", "oracle", DUMP, sf], cwd=cdir, timeout=2400)
         r["oracle_rc"] = rc3
         r["fails"] = [l for l in o3.split("\n") if l.startswith("FAIL ")]
         r["oracle_stat"] = [l for l in o3.split("\n") if l.startswith("STAT")]
@@ -181,7 +182,7 @@ def minimise(avh, prop, kind, script_text, budget=40):
 
 
 def run_tree_property(pid, tier, seed, props_file, enable="serialize", rule_extra="", extra_check=None, level_note=None,
-                      oracle_props=None, assumptions=None):
+                      oracle_props=None, assumptions=None, hooks_oracle=False):
     """the whole check for one tree property"""
     ctx = Ctx(pid, tier, seed)
     oracle_props = oracle_props or [pid]
@@ -203,10 +204,12 @@ def run_tree_property(pid, tier, seed, props_file, enable="serialize", rule_extr
         ctx.oblige("coq:property-file-present", False, props_file + " does not exist")
     avh = lib.harness_build(ctx)
     avm = build_model_runner(ctx) if translated else None
+    # hook H1 (raw dumps of both index maps) lets the oracle see keys nobody would ask for: C04 / C05 run it in the hook build
+    avh_oracle = lib.harness_build(ctx, hooks=True) if (hooks_oracle and avh) else avh
     unknown, known_hit = [], {}
     if avh and avm:
         nscripts = 4000 if tier == "thorough" else 640
-        res = gen_and_run(ctx, avh, avm, seed, tier, enable, nscripts, "generic")
+        res = gen_and_run(ctx, avh, avm, seed, tier, enable, nscripts, "generic", avh_oracle=avh_oracle or avh)
         shards = res["shards"]
         errs = [s.get("error") for s in shards if s.get("error")]
         nscr = sum(s.get("n", 0) for s in shards)
@@ -261,7 +264,7 @@ def run_tree_property(pid, tier, seed, props_file, enable="serialize", rule_extr
             a = [l for l in o1.split("\n") if l.startswith("S ")]
             b = [l for l in o2.split("\n") if l.startswith("S ")]
             ctx.oblige("correspondence:tree-regression-corpus(%d scripts)" % len(a), a == b and len(a) > 0, str([(x, y) for x, y in zip(a, b) if x != y][:2]))
-            _, o3, _ = lib.run([avh, "tree", "oracle", DUMP, corpus], cwd=TW, timeout=600)
+            _, o3, _ = lib.run([avh_oracle or avh, "tree", "oracle", DUMP, corpus], cwd=TW, timeout=600)
             back = [parse_fail(l) for l in o3.split("\n") if l.startswith("FAIL ")]
             back = [f for f in back if f["prop"] in oracle_props]
             for f in back:
@@ -289,10 +292,10 @@ def run_tree_property(pid, tier, seed, props_file, enable="serialize", rule_extr
                 continue
             p = os.path.join(TW, "confirm_%s.txt" % pid)
             open(p, "w").write(txt)
-            _, o, _ = lib.run([avh, "tree", "oracle", DUMP, p], cwd=TW, timeout=300)
+            _, o, _ = lib.run([avh_oracle or avh, "tree", "oracle", DUMP, p], cwd=TW, timeout=300)
             again = [l for l in o.split("\n") if l.startswith("FAIL %s " % f["prop"]) and "kind=%s " % f.get("kind") in l + " "]
             if again:
-                small = minimise(avh, f["prop"], f.get("kind"), txt) or txt
+                small = minimise(avh_oracle or avh, f["prop"], f.get("kind"), txt) or txt
                 confirmed.append((f, small, again[0]))
         ctx.oblige("oracle:%s holds on the implementation for all generated histories (modulo known findings)" % pid,
                    not confirmed, "; ".join(c[2] for c in confirmed)[:800])
